@@ -167,6 +167,9 @@ class CompoundQuery(qcore.Query):
                     if q.overlaps(subqueries[j]):
                         qq = subqueries.pop(j)
                         q = q.merge(qq, intersect=self.intersect_merge)
+                        # The merged range can overlap ranges that did not
+                        # overlap the original one: look at them again
+                        j = i + 1
                     else:
                         j += 1
                 q = subqueries[i] = q.normalize()
